@@ -42,3 +42,16 @@ def pad_region(region, pad_north, pad_east):
 def window_region(region, size):
     """rolling_window: the centre region is the region shrunk by half a window on each side."""
     return region[0] + size / 2, region[1] - size / 2, region[2] + size / 2, region[3] - size / 2
+
+
+def profile_coordinates(point1, point2, size):
+    """profile_coordinates: size points evenly spaced on the segment point1 -> point2, with the Cartesian distance from point1."""
+    separation = np.hypot(point2[0] - point1[0], point2[1] - point1[1])
+    distances = np.linspace(0, separation, size)
+    angle = np.arctan2(point2[1] - point1[1], point2[0] - point1[0])
+    return (point1[0] + distances * np.cos(angle), point1[1] + distances * np.sin(angle)), distances
+
+
+def get_region(easting, northing):
+    """get_region: the tight bounding box (W, E, S, N) of the first two coordinates."""
+    return np.min(easting), np.max(easting), np.min(northing), np.max(northing)
